@@ -258,6 +258,23 @@ def container_census():
     return sizes
 
 
+def caller_census(host):
+    """name -> summed container size of the objects the CALLER owns and hands to the library: its cache dicts,
+    its config dicts and its held Config instances. The library may fill a cache once; it may not park per-call
+    data in the caller's objects either (a private key that grows with every call is per-call data kept alive,
+    wherever it hangs). Peers and kept exception objects are the harness's own and are not measured."""
+    sizes = {}
+    for cid in sorted(host.caches):
+        sizes['caller.cache[%s]' % cid] = _measure(host.caches[cid], 0, set())
+    for cid in sorted(host.cfgs):
+        h = host.cfgs[cid]
+        if h.user is not None:
+            sizes['caller.config[%s]' % cid] = _measure(h.user, 0, set())
+        if h.instance is not None:
+            sizes['caller.Config[%s]' % cid] = _measure(h.instance, 0, set())
+    return sizes
+
+
 def growth(before: dict, after: dict):
     "Entries that got larger (or appeared) between two censuses"
     out = []
